@@ -12,15 +12,7 @@ must match the input exactly; input after the last verb/literal is ignored; any 
 caller `log.Panic` (= `fault:panic`). -/
 namespace C20
 
-/-! ## Go white space (`unicode.IsSpace` = `fmt.isSpace`) -/
-def isSpaceC (c : Char) : Bool :=
-  let n := c.toNat
-  (decide (9 ≤ n) && decide (n ≤ 13)) || n == 32 || n == 0x85 || n == 0xA0 || n == 0x1680 ||
-  (decide (0x2000 ≤ n) && decide (n ≤ 0x200a)) || n == 0x2028 || n == 0x2029 || n == 0x202f ||
-  n == 0x205f || n == 0x3000
-
-/-- `(*ss).SkipSpace` (no newline can occur inside a line) -/
-def skipSp (s : List Char) : List Char := s.dropWhile isSpaceC
+/-! ## Go white space: `isSpaceC`, `skipSp` live in `C20_Parse.lean` -/
 
 /-- `strings.TrimSpace` -/
 def trimSp (s : List Char) : List Char := ((skipSp s).reverse.dropWhile isSpaceC).reverse
@@ -44,37 +36,6 @@ def scanD (bits : Nat) (s : List Char) : Option (Int × List Char) :=
   else
     let i := signed sg.1 (valOf 10 run)
     if fits 64 i && fits bits i then some (i, sg.2.dropWhile (isDigit 10)) else none
-
-/-- `strconv.underscoreOK` on a run of digits and `_`; `prev`: 0 = start of the number, 1 = after a
-    digit or a base prefix, 2 = after an underscore -/
-def usOK : Nat → List Char → Bool
-  | p, [] => p != 2
-  | p, c :: r => if c = '_' then (p == 1 && usOK 2 r) else usOK 1 r
-
-/-- digits of base `b` (and `_`) after the sign/prefix: magnitude and rest -/
-def vGo (b : Nat) (body : List Char) (zeroLed needDigit : Bool) : Option (Nat × List Char) :=
-  let p := fun c => isDigit b c || c == '_'
-  let run := body.takeWhile p
-  if (needDigit && run.isEmpty) || !usOK (if zeroLed then 1 else 0) run then none
-  else some (valOf b (run.filter (fun c => c != '_')), body.dropWhile p)
-
-/-- `scanBasePrefix` + `scanNumber` + `ParseUint(tok, 0, 64)` without the range check -/
-def scanVMag : List Char → Option (Nat × List Char)
-  | '0' :: 'b' :: r => vGo 2 r true true
-  | '0' :: 'B' :: r => vGo 2 r true true
-  | '0' :: 'o' :: r => vGo 8 r true true
-  | '0' :: 'O' :: r => vGo 8 r true true
-  | '0' :: 'x' :: r => vGo 16 r true true
-  | '0' :: 'X' :: r => vGo 16 r true true
-  | '0' :: r => vGo 8 r true false
-  | r => vGo 10 r false true
-
-/-- `%v` into an `int64` -/
-def scanVI (s : List Char) : Option (Int × List Char) :=
-  let sg := splitSign (skipSp s)
-  match scanVMag sg.2 with
-  | none => none
-  | some (m, rest) => let i := signed sg.1 m; if fits 64 i then some (i, rest) else none
 
 /-- `%v` into a `uint64` (no sign is accepted) -/
 def scanVU (s : List Char) : Option (Nat × List Char) :=
